@@ -310,7 +310,12 @@ fn scenario(s: Arc<S15>, table: Arc<HashMap<u32, Arc<Vec<Option<u64>>>>>, obs: A
                 for _ in 0..200u64 {
                     let before: CodesStats = *wrapper.stats().lock().unwrap();
                     // (no flush: the write itself fails when the bit buffer spills into the full slice)
-                    let r = DynamicCodeWrite::write(&*wrapper, &mut *writer, v0);
+                    // both dispatch paths of the wrapper, in turn
+                    let r = if before.total % 2 == 0 {
+                        DynamicCodeWrite::write(&*wrapper, &mut *writer, v0)
+                    } else {
+                        StaticCodeWrite::<$E, _>::write(&*wrapper, &mut *writer, v0)
+                    };
                     let after: CodesStats = *wrapper.stats().lock().unwrap();
                     match r {
                         Ok(_) => ok += 1,
@@ -330,7 +335,11 @@ fn scenario(s: Arc<S15>, table: Arc<HashMap<u32, Arc<Vec<Option<u64>>>>>, obs: A
                 let mut reader = BufBitReader::<$E, _>::new(MemWordReader::new_strict(vec![u64::MAX; 1]));
                 for _ in 0..200u64 {
                     let before: CodesStats = *wrapper.stats().lock().unwrap();
-                    let r = DynamicCodeRead::read(&*wrapper, &mut reader);
+                    let r = if before.total % 2 == 0 {
+                        DynamicCodeRead::read(&*wrapper, &mut reader)
+                    } else {
+                        StaticCodeRead::<$E, _>::read(&*wrapper, &mut reader)
+                    };
                     let after: CodesStats = *wrapper.stats().lock().unwrap();
                     if r.is_err() {
                         assert!(
